@@ -5,8 +5,8 @@ The diagnostics are functions of the binding computed by LuaHelper's traversal (
   unused(d)    ⇔ d is declared by a `local` statement and no READ is bound to d        (type 4)
   undefined(o) ⇔ o is a read bound to no local, and no file assigns a global of that name (type 2)
 Here: these two sets computed from the traversal binder equal the ones computed from S-bind (Lua's
-scoping) on every chunk whose `local` statements have at most one initialiser — a corollary of
-`C06.traversal_eq_spec`, for all programs and nesting depths — and the two clauses "a bound name is
+scoping) on every chunk — a corollary of `C06.traversal_eq_spec`, for all programs and nesting
+depths — and the two clauses "a bound name is
 never reported undefined" / "a read local is never reported unused" hold by construction.  The
 documented exemptions and the suppression idioms (classes K1, K2) are applied by the harness on the
 concrete diagnostics and are not part of these definitions.
@@ -28,14 +28,14 @@ def undefinedReads (occs : List Occ) : List Occ :=
   occs.filter fun o => !o.isDecl && !o.isWrite && o.decl.isNone &&
     !(occs.any fun w => w.isWrite && w.decl.isNone && w.name == o.name)
 
-theorem unused_traversal_eq_spec (b : Block) (h : C06.okBlock b = true) :
+theorem unused_traversal_eq_spec (b : Block) :
     unusedDecls (bindTraversal b) = unusedDecls (bindChunk b) := by
-  rw [C06.traversal_eq_spec b h]
+  rw [C06.traversal_eq_spec b]
 #print axioms unused_traversal_eq_spec
 
-theorem undefined_traversal_eq_spec (b : Block) (h : C06.okBlock b = true) :
+theorem undefined_traversal_eq_spec (b : Block) :
     undefinedReads (bindTraversal b) = undefinedReads (bindChunk b) := by
-  rw [C06.traversal_eq_spec b h]
+  rw [C06.traversal_eq_spec b]
 #print axioms undefined_traversal_eq_spec
 
 /-- "A bound name is never reported undefined" -/
